@@ -270,8 +270,10 @@ Qed.
 
 (* ---- one open satisfies the per-open clauses of the monitor ------------------- *)
 Definition in_range (U : Z) (l : list Z) : Prop := forall p, In p l -> 0 <= p < U.
+(* scope columns are judged only where real resource managers run, and only
+   there can a scope refuse *)
 Definition wf_cfg (has_scope : bool) (c : cfg) : Prop :=
-  has_scope = true \/ forall p, limL c p < 0.
+  (has_scope = true \/ forall p, limL c p < 0) /\ (has_scope = true -> c_rcmgr c = true).
 
 Lemma outcome_open_ok : forall U has_scope c t kn knm b reqs b' r fo fin,
   outcome c t kn b reqs b' r ->
@@ -307,7 +309,7 @@ Proof.
         rewrite <- supports_matched. exact Hs. }
       rewrite Hc. cbn [negb implb andb].
       apply scope_try_none in Hfull. rewrite vec_at_in by exact Hp.
-      destruct Hwf as [Hhs | Hneg].
+      destruct Hwf as [[Hhs | Hneg] _].
       * rewrite Hhs. cbn [andb].
         assert (E1 : (0 <=? limL c p) = true) by (apply Z.leb_le; lia).
         assert (E2 : (limL c p <=? fin p) = true) by (apply Z.leb_le; specialize (Hmono p); lia).
@@ -397,6 +399,31 @@ Proof.
     + apply IHoutcomes; auto. intros q0 Hq0. apply Hr. right. exact Hq0.
 Qed.
 
+Lemma obt_obtained : forall p reg, obtained (obtained_res p reg) = true.
+Proof. reflexivity. Qed.
+Lemma obt_fail : forall code, obtained (fail_res code) = false.
+Proof. intros. unfold obtained, fail_res. cbn [o_res o_use]. apply andb_false_r. Qed.
+Lemma obt_use : forall p, obtained (use_failed p) = false.
+Proof. reflexivity. Qed.
+Lemma obt_refused : forall l, obtained (mkO 2 (-1) (-1) (-1) (-1) 0 (-1) (-1) l) = false.
+Proof. reflexivity. Qed.
+
+(* the streams both ends hold after a batch: the obtained ones, on the next slots in order *)
+Lemma outcomes_held : forall c t kn b qs b' rs, outcomes c t kn b qs b' rs ->
+  b_held b' = b_held b ++ slots_of (b_nslot b) rs /\
+  b_nslot b' = b_nslot b + count_if obtained rs.
+Proof.
+  intros c t kn b qs b' rs H. induction H.
+  - cbn. rewrite app_nil_r. split; [reflexivity|lia].
+  - destruct IHoutcomes as [IH1 IH2]. rewrite count_if_cons. cbn [slots_of].
+    destruct H as [p h b' _ _ _ _ Eh En _ _ _ | code _ | p b' _ [_ [_ [Eh En]]] _ _ | p h _ _].
+    + rewrite obt_obtained. cbn [obtained_res o_dp]. rewrite IH1, IH2, Eh, En, <- app_assoc. cbn [app].
+      split; [reflexivity|lia].
+    + rewrite obt_fail. rewrite IH1, IH2. split; [reflexivity|lia].
+    + rewrite obt_use. rewrite IH1, IH2, Eh, En. split; [reflexivity|lia].
+    + rewrite obt_refused. rewrite IH1, IH2. split; [reflexivity|lia].
+Qed.
+
 (* handlers that ran without a nonce: live, accepting, on opens with a protocol in common *)
 Lemma outcomes_un : forall c t kn b qs b' rs, outcomes c t kn b qs b' rs ->
   forallb (fun x => live_match t (fst x) (snd x)) (flat_map o_un rs) = true /\
@@ -418,15 +445,6 @@ Proof.
           rewrite <- supports_matched. unfold supports. rewrite Hf. reflexivity. }
         rewrite Hc. unfold obtained in *. cbn [o_res o_use Z.eqb andb negb]. lia.
 Qed.
-
-Lemma obt_obtained : forall p reg, obtained (obtained_res p reg) = true.
-Proof. reflexivity. Qed.
-Lemma obt_fail : forall code, obtained (fail_res code) = false.
-Proof. intros. unfold obtained, fail_res. cbn [o_res o_use]. apply andb_false_r. Qed.
-Lemma obt_use : forall p, obtained (use_failed p) = false.
-Proof. reflexivity. Qed.
-Lemma obt_refused : forall l, obtained (mkO 2 (-1) (-1) (-1) (-1) 0 (-1) (-1) l) = false.
-Proof. reflexivity. Qed.
 
 (* exact accounting: each scope grows by the number of obtained streams bound to it *)
 Lemma outcomes_counts : forall c t kn b qs b' rs, outcomes c t kn b qs b' rs ->
